@@ -223,6 +223,8 @@ class TriggerHandler:
 
         Reset the settrace to the previous values.
         """
+        # take no further actions, even for threads that keep calling our trace function
+        self._tp_config = []
         if self._config.NO_TRACE:
             # we never installed our hooks, so there is nothing of ours to remove
             return
